@@ -1,7 +1,8 @@
 from props import P
 
 CFG = P(
-        harness=["harness/C17.cc"], srcs=["Arguments.cc", "Strings.cc", "Filesystem.cc", "Process.cc", "Time.cc", "Encoding.cc"],
+        harness=["harness/C17.cc", "harness/C17_hist.cc", "harness/C17_more.cc"], harness_deps=["harness/C17_common.hh"],
+        srcs=["Arguments.cc", "Strings.cc", "Filesystem.cc", "Process.cc", "Time.cc", "Encoding.cc"],
         harness_cxxflags=["-fno-access-control"],
         rule="a case is non-trivial when it is a distinct token list, command line, (numeral text, IntFormat), float text or (argument set, getter subset) on which the real Arguments object is built and read; every case decides at least one accept/reject or used/unused verdict",
         bounds={"quick": "all token lists <=5 over 13 tokens; all n in [-70000,70000] x 5 renderings x 4 formats x six 8/16/32-bit targets; boundary numerals and garbage x eight targets; 17316 float literals + garbage; 99 argument sets x all 16384 getter subsets; quoted/escaped command lines of <=3 tokens",
